@@ -249,3 +249,123 @@ Definition elide_g_cert (target : val) (before after : prog) : bool :=
 
 Definition simplify_g_cert (T : tbl) (fresh : list val) (target : val) (before after : prog) : bool :=
   eq_opt (rule_simplify_g (tfun T) fresh target before) after && simplify_hyp (tfun T) fresh target before.
+
+(* ======================= PullSetupOpsOutOfLoops (third round) =======================================
+   [FF a] = the "full" field set of accelerator a.  [ffF_*] is full_field_form relative to FF: every
+   launch is immediately preceded, in its block, by a setup of its accelerator that writes every field
+   of FF.  [within_*]: every setup only writes fields of FF (so the fields a run knows are in FF).
+   With FF := fun a => prog_fields a (p_body p) these are full_field_form p and a tautology. *)
+Section FullField.
+Variable FF : acc -> list field.
+
+Definition isfull (a : acc) (s : stmt) : bool :=
+  match s with
+  | SSetup a' _ _ fs => Nat.eqb a' a && forallb (fun f => mem_nat f (map fst fs)) (FF a)
+  | _ => false
+  end.
+Definition prevfull (a : acc) (prev : option stmt) : bool :=
+  match prev with Some s => isfull a s | None => false end.
+
+Fixpoint ffF_stmt (prev : option stmt) (s : stmt) {struct s} : bool :=
+  let blk := fix blk (prev : option stmt) (b : list stmt) {struct b} : bool :=
+    match b with
+    | [] => true
+    | x :: b' => ffF_stmt prev x && blk (Some x) b'
+    end in
+  match s with
+  | SLaunch a _ _ _ => prevfull a prev
+  | SFor _ _ _ _ _ _ body _ => blk None body
+  | SIf _ _ th _ el _ => blk None th && blk None el
+  | _ => true
+  end.
+Fixpoint ffF_block (prev : option stmt) (b : block) : bool :=
+  match b with
+  | [] => true
+  | x :: b' => ffF_stmt prev x && ffF_block (Some x) b'
+  end.
+
+Fixpoint within_stmt (s : stmt) : bool :=
+  let blk := fix blk (b : list stmt) : bool := match b with [] => true | x :: b' => within_stmt x && blk b' end in
+  match s with
+  | SSetup a _ _ fs => forallb (fun f => mem_nat f (FF a)) (map fst fs)
+  | SFor _ _ _ _ _ _ body _ => blk body
+  | SIf _ _ th _ el _ => blk th && blk el
+  | _ => true
+  end.
+Fixpoint within_block (b : block) : bool := match b with [] => true | x :: b' => within_stmt x && within_block b' end.
+End FullField.
+
+Definition FF_of (p : prog) : acc -> list field := fun a => prog_fields a (p_body p).
+
+(* the rule, through ctx_prog, for accelerator [a]; [G] ghosts as before *)
+Definition pull_g_in_loop (G : list val) (a : acc) (n : val) (target : val) (s : stmt) : option (list stmt) :=
+  match s with
+  | SFor iv lb ub sp its rs body ys =>
+      match find_setup target body with
+      | Some (_, (a', o, Some b, _), _) =>
+          match init_of_arg b its with
+          | Some init =>
+              let inside := iv :: map it_arg its ++ block_defs body in
+              let fs := pull_fields inside (block_setups a' body) in
+              match fs with
+              | [] => None
+              | _ => if Nat.eqb a' a && isg G init && isg G n
+                     then Some [SSetup a n (Some init) fs;
+                                SFor iv lb ub sp (map (fun it => (it_arg it, rn init n (it_init it), it_ty it)) its) rs body ys]
+                     else None
+              end
+          | None => None
+          end
+      | _ => None
+      end
+  | _ => None
+  end.
+
+Fixpoint pull_g_here (G : list val) (a : acc) (n : val) (target : val) (b : block) : option block :=
+  match b with
+  | [] => None
+  | s :: b' => match pull_g_in_loop G a n target s with
+               | Some ss => Some (ss ++ b')
+               | None => match pull_g_here G a n target b' with Some b'' => Some (s :: b'') | None => None end
+               end
+  end.
+
+Definition rule_pull_g (G : list val) (a : acc) (fresh : list val) (target : val) (p : prog) : option prog :=
+  match hd_fresh fresh with
+  | Some n => ctx_prog (pull_g_here G a n target) p
+  | None => None
+  end.
+
+(* decidable hypotheses of the pull theorem: full-field form relative to FF, ghost typing before/after *)
+Definition pull_hyp (FF : acc -> list field) (G : list val) (a : acc) (fresh : list val) (target : val) (p : prog) : bool :=
+  match rule_pull_g G a fresh target p with
+  | Some q => ffF_block FF None (p_body p) && gok_prog G p && gok_prog G q
+  | None => false
+  end.
+
+Fixpoint acc_of_setup_stmt (target : val) (s : stmt) {struct s} : option acc :=
+  let blk := fix blk (b : list stmt) : option acc :=
+    match b with [] => None | x :: b' => match acc_of_setup_stmt target x with Some r => Some r | None => blk b' end end in
+  match s with
+  | SSetup a o _ _ => if Nat.eqb o target then Some a else None
+  | SFor _ _ _ _ _ _ body _ => blk body
+  | SIf _ _ th _ el _ => match blk th with Some r => Some r | None => blk el end
+  | _ => None
+  end.
+Fixpoint acc_of_setup (target : val) (b : block) : option acc :=
+  match b with [] => None | x :: b' => match acc_of_setup_stmt target x with Some r => Some r | None => acc_of_setup target b' end end.
+
+(* L1: the guarded rule gives the real result; and (reported separately) whether the program the pass
+   applied it to is in full-field form, i.e. whether C01_pull_rule covers this rewrite *)
+Definition pull_cert (fresh : list val) (target : val) (before after : prog) : bool :=
+  let G := prog_ghosts before ++ fresh in
+  match acc_of_setup target (p_body before) with
+  | Some a => eq_opt (rule_pull_g G a fresh target before) after
+  | None => false
+  end.
+Definition pull_covered (fresh : list val) (target : val) (before : prog) : bool :=
+  let G := prog_ghosts before ++ fresh in
+  match acc_of_setup target (p_body before) with
+  | Some a => pull_hyp (FF_of before) G a fresh target before && within_block (FF_of before) (p_body before)
+  | None => false
+  end.
